@@ -18,6 +18,7 @@ import (
 	"strconv"
 	"strings"
 	"sync"
+	"sync/atomic"
 	"testing"
 	"time"
 
@@ -26,6 +27,7 @@ import (
 	"github.com/google/martian/v3/fifo"
 	"github.com/google/martian/v3/martianhttp"
 	"github.com/google/martian/v3/martianurl"
+	"github.com/google/martian/v3/mobile"
 	"github.com/google/martian/v3/verify"
 	"pgregory.net/rapid"
 
@@ -50,8 +52,12 @@ type WireCase struct {
 	// CloneRT: the proxy's RoundTripper (SetRoundTripper) forwards a copy of
 	// the request, as instrumenting transports do; the response it returns
 	// then points at the copy.
-	CloneRT bool     `json:"clone_rt,omitempty"`
-	Ops     []WireOp `json:"ops"`
+	CloneRT bool `json:"clone_rt,omitempty"`
+	// Mobile: proxy, API server and the order of the top-level modifiers are
+	// the shipped ones of package mobile (mobile.NewProxy().Start()), not the
+	// harness's own assembly.
+	Mobile bool     `json:"mobile,omitempty"`
+	Ops    []WireOp `json:"ops"`
 }
 
 type cloningRT struct{ next http.RoundTripper }
@@ -61,13 +67,16 @@ func (c cloningRT) RoundTrip(req *http.Request) (*http.Response, error) {
 }
 
 type wireEnv struct {
-	origin  *netkit.Origin
-	apiL    net.Listener
-	apiSrv  *http.Server
-	apiPort int
-	proxy   *netkit.Proxy
-	m       *martianhttp.Modifier
-	clients []*netkit.Client
+	origin    *netkit.Origin
+	apiL      net.Listener
+	apiSrv    *http.Server
+	apiPort   int
+	mobile    *mobile.Martian
+	proxyAddr string
+	apiAddr   string
+	proxy     *netkit.Proxy
+	m         *martianhttp.Modifier
+	clients   []*netkit.Client
 
 	mu      sync.Mutex
 	scripts map[string]*tr.Res // X-Verif-Op value -> response the origin gives
@@ -79,9 +88,29 @@ func (e *wireEnv) close() {
 			c.Close()
 		}
 	}
-	e.proxy.Stop(kit.T())
-	e.apiSrv.Close()
+	if e.mobile != nil {
+		e.mobile.Shutdown()
+	} else {
+		e.proxy.Stop(kit.T())
+		e.apiSrv.Close()
+	}
 	e.origin.Close()
+}
+
+// freePort asks the kernel for a free TCP port; package mobile takes port
+// numbers, not listeners.
+func freePort() int {
+	// Probed on the wildcard address, as mobile.Start binds it: a port some
+	// other process holds on one loopback address only (the harness listens on
+	// 127.x.y.z) would make Start fail, and Start answers that with log.Fatal.
+	// (BindLocalhost is no way out here: localhost resolves to 127.0.0.1 only,
+	// so the forwarder could not reach an API server bound to [::1].)
+	l, err := net.Listen("tcp", ":0")
+	if err != nil {
+		panic(err)
+	}
+	defer l.Close()
+	return l.Addr().(*net.TCPAddr).Port
 }
 
 func newWireEnv(c WireCase) (*wireEnv, kit.Verdict) {
@@ -109,6 +138,15 @@ func newWireEnv(c WireCase) (*wireEnv, kit.Verdict) {
 		return netkit.Script{Raw: []byte(sb.String()), CutAt: -1}
 	})
 
+	if c.Mobile {
+		m := mobile.NewProxy()
+		m.TrafficPort, m.APIPort = freePort(), freePort()
+		m.Start() // its own listeners on both ports, API handlers, spec stack, forwarder
+		e.mobile, e.apiPort = m, m.APIPort
+		e.proxyAddr = fmt.Sprintf("127.0.0.1:%d", m.TrafficPort)
+		e.apiAddr = fmt.Sprintf("127.0.0.1:%d", m.APIPort)
+		return e.connect(c)
+	}
 	// the modifier holding the tree, configured through its endpoint
 	e.m = martianhttp.NewModifier()
 	vh, rh := verify.NewHandler(), verify.NewResetHandler()
@@ -154,10 +192,15 @@ func newWireEnv(c WireCase) (*wireEnv, kit.Verdict) {
 	p.SetRequestModifier(top)
 	p.SetResponseModifier(top)
 	e.proxy = netkit.Start(p, nil)
+	e.proxyAddr, e.apiAddr = e.proxy.Addr, e.apiL.Addr().String()
+	return e.connect(c)
+}
 
+// connect opens the client connections and sends the configuration through the proxy.
+func (e *wireEnv) connect(c WireCase) (*wireEnv, kit.Verdict) {
 	e.clients = make([]*netkit.Client, c.Conns)
 	for i := range e.clients {
-		cl, err := netkit.Dial(e.proxy.Addr)
+		cl, err := netkit.Dial(e.proxyAddr)
 		if err != nil {
 			e.close()
 			return nil, kit.Failf("C13/e2e/setup/cannot-connect", "dial proxy: %v", err)
@@ -209,6 +252,16 @@ func (e *wireEnv) roundTrip(conn int, method, target string, hdr map[string][]st
 }
 
 // asSeen is the request as the proxy hands it to the modifiers.
+// asSeenAt: originHost, when set, replaces the host of an ordinary exchange -
+// the shipped proxy dials what the URL says.
+func asSeenAt(op *WireOp, idx int, originHost string) *tr.Req {
+	rq := asSeen(op, idx)
+	if originHost != "" {
+		rq.Host, rq.HostH = originHost, originHost
+	}
+	return rq
+}
+
 func asSeen(op *WireOp, idx int) *tr.Req {
 	rq := op.Req.Clone()
 	rq.Scheme = "http"
@@ -246,6 +299,10 @@ func runWireBound(c WireCase, bound time.Duration) kit.Verdict {
 	apiSeen := make([]bool, c.Conns) // an API request already travelled on this connection
 	apiSeen[0] = true                // the configuration POST
 	apiHost := fmt.Sprintf("localhost:%d", e.apiPort)
+	originHost := ""
+	if c.Mobile {
+		originHost = e.origin.Addr
+	}
 	fail := func(sig, format string, args ...interface{}) {
 		v.Addf(sig, format, args...)
 	}
@@ -254,6 +311,14 @@ func runWireBound(c WireCase, bound time.Duration) kit.Verdict {
 		op := &Op{K: "X", API: true, Req: &tr.Req{Method: method, Scheme: "http", Host: apiHost, Path: path, HostH: "martian.proxy", Header: map[string][]string{}},
 			Res: &tr.Res{Status: status, Header: map[string][]string{}}}
 		unmet, _, _ := predict(c.Tree, op)
+		m.applyExchange(unmet, nil, true)
+		// ... and as it is before the forwarder re-addresses it (an assembly
+		// that runs the tree first shows the tree this form)
+		early := *op
+		rq := *op.Req.Clone()
+		rq.Host = "martian.proxy"
+		early.Req = &rq
+		unmet, _, _ = predict(c.Tree, &early)
 		m.applyExchange(unmet, nil, true)
 	}
 	noteAPI("POST", "/configure", 200)
@@ -271,7 +336,7 @@ func runWireBound(c WireCase, bound time.Duration) kit.Verdict {
 		op := &c.Ops[i]
 		switch op.K {
 		case "X":
-			rq := asSeen(op, i)
+			rq := asSeenAt(op, i, originHost)
 			seqOp := &Op{K: "X", Req: rq, Res: op.Res}
 			unmet, pinged, lv := predict(c.Tree, seqOp)
 			v = append(v, lv...)
@@ -324,8 +389,9 @@ func runWireBound(c WireCase, bound time.Duration) kit.Verdict {
 			for _, x := range doc.Errors {
 				got = append(got, x.Message)
 			}
-			compare(i, "query through the proxy", got)
+			// the query's own request passed the tree before the handler answered
 			noteAPI("GET", "/verify", 200)
+			compare(i, "query through the proxy", got)
 		case "Z":
 			resp, err := e.roundTrip(op.Conn, "POST", "http://martian.proxy/verify/reset", nil, "", bound)
 			apiSeen[op.Conn] = true
@@ -343,7 +409,7 @@ func runWireBound(c WireCase, bound time.Duration) kit.Verdict {
 		}
 	}
 	// final observation straight at the API server (not through the proxy)
-	hres, err := (&http.Client{Timeout: bound}).Get("http://" + e.apiL.Addr().String() + "/verify")
+	hres, err := (&http.Client{Timeout: bound}).Get("http://" + e.apiAddr + "/verify")
 	if err != nil {
 		fail("C13/e2e/final-query/failed", "direct query: %v", err)
 		return dedupe(v)
@@ -473,15 +539,76 @@ func e2eDoneMarker() string { return filepath.Join(kit.OutDir(), "c13-e2e-done")
 // journaled e2e case removes that file when it ends, which would also remove
 // the journal a halted race process left behind - and with it the replayable
 // case of a detected race. Shard 0 therefore runs its journaled cases first
-// and leaves a marker; the race process starts its cases once it is there.
+// (TestEndToEnd, then TestEndToEndMobile, which leaves a marker); the race
+// process starts its cases once it is there.
 func TestEndToEnd(t *testing.T) {
 	if kit.Race() {
 		t.Skip("the race shard is spent on the in-process concurrent variant")
 	}
-	if kit.Shard() == 0 {
-		defer os.WriteFile(e2eDoneMarker(), []byte("done\n"), 0o644)
-	}
 	propWire.Check(t, kit.N(40, 150))
+}
+
+// propMobile: the same end-to-end history against the shipped assembly of
+// package mobile. "Requests addressed to the proxy's own API are never
+// counted" is a promise about the product, and where the API mark is set
+// relative to the configured tree is decided by that assembly (mobile.Start,
+// cmd/proxy), not by the verifier packages.
+var propMobile = &kit.Prop[WireCase]{
+	ID: "C13", Name: "e2e-mobile", Journal: true,
+	Rule: "mobile.NewProxy().Start() on two free ports (its own listeners, API server, spec stack, mux filter + api.Forwarder in the order the package ships); the verifier tree is configured through the proxy (POST http://martian.proxy/configure), ordinary exchanges go to a scripted origin by its real address, queries and resets go through the proxy on the same keep-alive connection; each answer and a final direct query are compared with the model; non-trivial = the tree holds a request-side verifier and the history a query through the proxy",
+	Gen: func(t *rapid.T) WireCase {
+		c := WireCase{Tree: genTreeOpt(t, true), Conns: 1, Mobile: true}
+		n := 3 + uni(t, "nops", 8)
+		for i := 0; i < n; i++ {
+			op := WireOp{}
+			switch k := uni(t, "op", 10); {
+			case k < 5:
+				rq, rs := tr.GenPairOpt(t, false)
+				op.K, op.Req, op.Res = "X", &rq, &rs
+				delete(rs.Header, "Set-Cookie")
+				rq.CL, rs.CL = 0, 0
+			case k < 9:
+				op.K = "V"
+			default:
+				op.K = "Z"
+			}
+			c.Ops = append(c.Ops, op)
+		}
+		return c
+	},
+	// mobile.Start binds two port numbers on the wildcard address and answers a
+	// failed bind with log.Fatal; the ports are probed just before (freePort)
+	// and on this busy machine every further start is a further chance to lose
+	// that race. The first failing case is therefore kept as it is (the
+	// histories are short) instead of being shrunk through hundreds of starts.
+	Run: func(c WireCase) kit.Verdict {
+		if mobileFailed.Load() {
+			return nil
+		}
+		v := runWire(c)
+		if len(v) > 0 {
+			mobileFailed.Store(true)
+		}
+		return v
+	},
+	NonTrivial: func(c WireCase) bool {
+		q := false
+		for _, op := range c.Ops {
+			q = q || op.K == "V"
+		}
+		return q && len(tr.Verifiers(c.Tree, tr.Request)) > 0
+	},
+}
+
+var mobileFailed atomic.Bool
+
+func TestEndToEndMobile(t *testing.T) {
+	if kit.Race() || kit.Shard() != 0 {
+		t.Skip("one process is enough: package mobile binds fixed port numbers on all interfaces")
+	}
+	// the last journaled test of shard 0: see TestEndToEnd
+	defer os.WriteFile(e2eDoneMarker(), []byte("done\n"), 0o644)
+	propMobile.Check(t, kit.N(12, 40))
 }
 
 // waitForE2E is called by the race process before its first case (bounded;
